@@ -90,7 +90,9 @@ pub fn gen_shape(src: &mut Src) -> LefShape {
         0 => LefShape::Rect(gen_mask(src), gen_pt(src), gen_pt(src)),
         1 => {
             let n = src.usize_in(3, 6);
-            LefShape::Polygon(gen_mask(src), (0..n).map(|_| gen_pt(src)).collect())
+            let m = gen_mask(src);
+            let pts = (0..n).map(|_| gen_pt(src)).collect();
+            LefShape::Polygon(m, maybe_closed(src, pts))
         }
         _ => {
             let n = src.usize_in(2, 5);
@@ -165,7 +167,7 @@ pub fn gen_pin(src: &mut Src, o: &LefGenOpts) -> LefPin {
         use_: opt(src, 1, 2, |s| *s.pick(&[LefPinUse::Signal, LefPinUse::Analog, LefPinUse::Power, LefPinUse::Ground, LefPinUse::Clock])),
         shape: opt(src, 1, 4, |s| *s.pick(&[LefPinShape::Abutment, LefPinShape::Ring, LefPinShape::FeedThru])),
         antenna_model: opt(src, 1, 4, |s| *s.pick(&[LefAntennaModel::Oxide1, LefAntennaModel::Oxide2, LefAntennaModel::Oxide3, LefAntennaModel::Oxide4])),
-        antenna_attrs: (0..na).map(|_| LefPinAntennaAttr { key: src.pick(ANTENNA_KEYS).to_string(), val: gen_pos_dec(src), layer: opt(src, 1, 2, gen_name) }).collect(),
+        antenna_attrs: (0..na).map(|_| LefPinAntennaAttr { key: gen_antenna_key(src), val: gen_pos_dec(src), layer: opt(src, 1, 2, gen_name) }).collect(),
         taper_rule: opt(src, 1, 5, gen_name),
         supply_sensitivity: opt(src, 1, 5, gen_name),
         ground_sensitivity: opt(src, 1, 5, gen_name),
@@ -218,12 +220,31 @@ pub fn gen_macro(src: &mut Src, o: &LefGenOpts, version_le_5p4: bool) -> LefMacr
         }),
     }
 }
+/// An antenna keyword, mostly upper-case, sometimes lower or mixed case: the keyword is matched
+/// without regard to case and the spelling found is what the library value keeps
+fn gen_antenna_key(src: &mut Src) -> String {
+    let k = src.pick(ANTENNA_KEYS).to_string();
+    match src.weighted(&[5, 1, 1]) {
+        0 => k,
+        1 => k.to_ascii_lowercase(),
+        _ => k.chars().enumerate().map(|(i, c)| if i % 2 == 1 { c.to_ascii_lowercase() } else { c }).collect(),
+    }
+}
+/// point lists sometimes end on their first point again (the list is data: it is kept as written)
+fn maybe_closed(src: &mut Src, mut pts: Vec<LefPoint>) -> Vec<LefPoint> {
+    if src.prob(1, 5) {
+        pts.push(pts[0].clone());
+    }
+    pts
+}
 fn gen_via_shape(src: &mut Src) -> LefViaShape {
     if src.bool() {
         LefViaShape::Rect(gen_mask(src), gen_pt(src), gen_pt(src))
     } else {
         let n = src.usize_in(3, 5);
-        LefViaShape::Polygon(gen_mask(src), (0..n).map(|_| gen_pt(src)).collect())
+        let m = gen_mask(src);
+        let pts = (0..n).map(|_| gen_pt(src)).collect();
+        LefViaShape::Polygon(m, maybe_closed(src, pts))
     }
 }
 pub fn gen_via(src: &mut Src) -> LefViaDef {
@@ -454,7 +475,8 @@ impl<'a, 'b> Renderer<'a, 'b> {
                 self.kinds |= K_WHITESPACE;
             }
             3 => {
-                self.out.push_str("\n  ");
+                // line ends: LF, CR LF (files written on other systems), form feed
+                self.out.push_str(*self.src.pick(&["\n  ", "\n", "\r\n", "\r\n\t", " \x0c\n"]));
                 self.kinds |= K_WHITESPACE;
             }
             4 => {
